@@ -36,7 +36,12 @@ package parser
 //@ spec keptFwd(M, M0, src) = forall(l, 0, 1<<32, forall(c, 0, 1<<32, implies(has(M0, l) && has(M0[l], c) && !inSrcRect(src, l, c), has(M, l) && has(M[l], c) && M[l][c] == M0[l][c])))
 //@ spec keptRev(M, M0, src, tgt) = forall(l, 0, 1<<32, forall(c, 0, 1<<32, implies(has(M0, l) && has(M0[l], c) && !inTgtRect(src, tgt, l, c), has(M, l) && has(M[l], c) && M[l][c] == M0[l][c])))
 
+// An expression that the parser recorded has a source range; the generator also builds expressions of its own
+// (no range): those must never be entered into the map - Add would file them under source position 0:0.
+//@ typeinv Expression(e): len(e.Value) == 0 || e.Range.To.Index > e.Range.From.Index
+
 //@ func (*SourceMap) Add [C07]
+//@   callsite requires len(src.Value) == 0 || src.Range.To.Index > src.Range.From.Index
 // at a call site in the generator (g the generator, g.w its range writer): the target range is where the
 // expression's own text was just written - the bytes of the output at tgt.From.Index are src.Value, and
 // tgt.From is the line / column of that offset
@@ -85,3 +90,25 @@ package parser
 //@   requires sm != nil
 //@   ensures implies(ok, has(sm.SourceLinesToTarget, line) && has(sm.SourceLinesToTarget[line], col) && tgt == sm.SourceLinesToTarget[line][col])
 //@   ensures implies(has(sm.SourceLinesToTarget, line) && has(sm.SourceLinesToTarget[line], col), ok)
+
+// Symbol ranges (top-level templates, css, script and Go blocks): the pair is recorded in both directions and
+// no other recorded symbol is lost.
+//@ spec keptSym(M, M0, l0, c0) = forall(l, 0, 1<<32, forall(c, 0, 1<<32, implies(has(M0, l) && has(M0[l], c) && !(l == l0 && c == c0), has(M, l) && has(M[l], c) && M[l][c] == M0[l][c])))
+//@ func (*SourceMap) AddSymbolRange [C07]
+//@   requires sm != nil && sm.SourceSymbolRangeToTarget != nil && sm.TargetSymbolRangeToSource != nil && innerOK(sm.SourceSymbolRangeToTarget) && innerOK(sm.TargetSymbolRangeToSource)
+//@   ensures sm.SourceSymbolRangeToTarget != nil && sm.TargetSymbolRangeToSource != nil && innerOK(sm.SourceSymbolRangeToTarget) && innerOK(sm.TargetSymbolRangeToSource)
+//@   modifies sm.SourceSymbolRangeToTarget, sm.TargetSymbolRangeToSource
+//@   ensures has(sm.SourceSymbolRangeToTarget, src.From.Line) && has(sm.SourceSymbolRangeToTarget[src.From.Line], src.From.Col) && sm.SourceSymbolRangeToTarget[src.From.Line][src.From.Col] == tgt
+//@   ensures has(sm.TargetSymbolRangeToSource, tgt.From.Line) && has(sm.TargetSymbolRangeToSource[tgt.From.Line], tgt.From.Col) && sm.TargetSymbolRangeToSource[tgt.From.Line][tgt.From.Col] == src
+//@   ensures keptSym(sm.SourceSymbolRangeToTarget, old(sm.SourceSymbolRangeToTarget), src.From.Line, src.From.Col)
+//@   ensures keptSym(sm.TargetSymbolRangeToSource, old(sm.TargetSymbolRangeToSource), tgt.From.Line, tgt.From.Col)
+
+//@ func (*SourceMap) SymbolTargetRangeFromSource [C07]
+//@   requires sm != nil
+//@   ensures implies(ok, has(sm.SourceSymbolRangeToTarget, line) && has(sm.SourceSymbolRangeToTarget[line], col) && tgt == sm.SourceSymbolRangeToTarget[line][col])
+//@   ensures implies(has(sm.SourceSymbolRangeToTarget, line) && has(sm.SourceSymbolRangeToTarget[line], col), ok)
+
+//@ func (*SourceMap) SymbolSourceRangeFromTarget [C07]
+//@   requires sm != nil
+//@   ensures implies(ok, has(sm.TargetSymbolRangeToSource, line) && has(sm.TargetSymbolRangeToSource[line], col) && src == sm.TargetSymbolRangeToSource[line][col])
+//@   ensures implies(has(sm.TargetSymbolRangeToSource, line) && has(sm.TargetSymbolRangeToSource[line], col), ok)
